@@ -164,6 +164,17 @@ Theorem C10_function_is_a_schedule : forall dispatch cfg r queued, 0 < c_ht cfg 
                s_written s = Some (map snd (fst (server_step dispatch cfg r queued))).
 Proof. exact InvokeProofs.function_is_a_schedule. Qed.
 
+(* ---- a whole connection under a handle timeout: each request's handler runs under any schedule (all of them complete:
+   C10_schedules_progress), the writes reach the socket in any interleaving: as many replies as two-way requests, each
+   with the identity of a two-way request of the connection ---- *)
+Theorem C10_connection_schedules : forall dispatch (ts : list (handler_run)) out,
+  Forall (run_ok dispatch) ts -> interleave (map run_written ts) out ->
+  length out = length (filter (fun t => negb (oneway (run_request t))) ts) /\
+  forall x, In x out -> exists t, In t ts /\ oneway (run_request t) = false /\
+                                  p_id x = q_id (run_request t) /\ p_ver x = q_ver (run_request t) /\
+                                  p_ptype x = q_ptype (run_request t).
+Proof. exact InvokeProofs.connection_schedules. Qed.
+
 (* ---- pipelining on one connection: any interleaving of the handlers' writes ---- *)
 Theorem C10_pipelining : forall dispatch cfg reqs out,
   interleave (map (fun pq => fst (serve_packet dispatch cfg (fst pq) (snd pq))) reqs) out ->
@@ -207,6 +218,7 @@ Print Assumptions C10_schedules_progress.
 Print Assumptions C10_function_is_a_schedule.
 Print Assumptions C10_schedules_oneway.
 Print Assumptions C10_schedules_late.
+Print Assumptions C10_connection_schedules.
 Print Assumptions C10_pipelining.
 Print Assumptions C10_session_identity.
 Print Assumptions C10_tcp_segmentation.
